@@ -13,6 +13,7 @@ import (
 	"strconv"
 	"strings"
 
+	"github.com/gookit/rux"
 	"github.com/gookit/rux/pkg/binding"
 	"github.com/gookit/validate"
 
@@ -165,8 +166,32 @@ func c18Run(c c18Case, st *fw.Stats) []fw.Viol {
 				}
 				var obj c18Src
 				var err error
-				if pv := try(func() { err = binding.Auto(req, &obj) }); pv != nil {
-					add("table:panic", fmt.Sprintf("Auto(%s, Content-Type %q, query=%v) panicked: %v", c.Method, ct, withQuery, pv))
+				// through every automatic entry point: binding.Auto, binding.Bind, Context.Bind, Context.AutoBind
+				entries := []string{"binding.Auto", "binding.Bind", "Context.Bind", "Context.AutoBind"}
+				entry := entries[(len(ct)+b2i(withQuery))%len(entries)]
+				if ct == "" || strings.Contains(ct, "json") || strings.Contains(ct, "form") {
+					entry = entries[(len(c.Method)+len(ct)+b2i(withQuery))%len(entries)]
+				}
+				pv := try(func() {
+					switch entry {
+					case "binding.Auto":
+						err = binding.Auto(req, &obj)
+					case "binding.Bind":
+						err = binding.Bind(req, &obj)
+					default:
+						r := rux.New()
+						r.Add("/x", func(ctx *rux.Context) {
+							if entry == "Context.Bind" {
+								err = ctx.Bind(&obj)
+							} else {
+								err = ctx.AutoBind(&obj)
+							}
+						}, c.Method)
+						r.ServeHTTP(httptest.NewRecorder(), req)
+					}
+				})
+				if pv != nil {
+					add("table:panic", fmt.Sprintf("%s(%s, Content-Type %q, query=%v) panicked: %v", entry, c.Method, ct, withQuery, pv))
 					continue
 				}
 				hasBody := c.Method == "POST" || c.Method == "PUT" || c.Method == "PATCH"
@@ -195,11 +220,45 @@ func c18Run(c c18Case, st *fw.Stats) []fw.Viol {
 					continue
 				}
 				if err != nil || obj.Name != want {
-					add("table:source", fmt.Sprintf("Auto(%s, Content-Type %q, query present=%v): bound Name=%q err=%v; the documented source carries %q", c.Method, ct, withQuery, obj.Name, err, want))
+					add("table:source", fmt.Sprintf("%s(%s, Content-Type %q, query present=%v): bound Name=%q err=%v; the documented source carries %q", entry, c.Method, ct, withQuery, obj.Name, err, want))
 				}
 			}
 		}
 	case "roundtrip":
+		// the explicit binders of the context read their own source whatever the Content-Type says
+		for _, eb := range []string{"BindJSON", "BindXML", "BindForm", "ShouldBind(JSON)", "MustBind(XML)"} {
+			st.Evals++
+			var obj c18Src
+			var err error
+			body, want := `{"name":"J"}`, "J"
+			if strings.Contains(eb, "XML") {
+				body, want = `<o><name>X</name></o>`, "X"
+			} else if eb == "BindForm" {
+				body, want = "name=F", "F"
+			}
+			req := httptest.NewRequest("POST", "/x?name=Q", strings.NewReader(body))
+			req.Header.Set("Content-Type", "application/x-www-form-urlencoded")
+			r := rux.New()
+			r.POST("/x", func(ctx *rux.Context) {
+				switch eb {
+				case "BindJSON":
+					err = ctx.BindJSON(&obj)
+				case "BindXML":
+					err = ctx.BindXML(&obj)
+				case "BindForm":
+					err = ctx.BindForm(&obj)
+				case "ShouldBind(JSON)":
+					err = ctx.ShouldBind(&obj, binding.JSON)
+				case "MustBind(XML)":
+					ctx.MustBind(&obj, binding.XML)
+				}
+			})
+			if pv := try(func() { r.ServeHTTP(httptest.NewRecorder(), req) }); pv != nil {
+				add("explicit:panic", fmt.Sprintf("Context.%s panicked: %v", eb, pv))
+			} else if err != nil || obj.Name != want {
+				add("explicit:source", fmt.Sprintf("Context.%s bound Name=%q err=%v, expected %q", eb, obj.Name, err, want))
+			}
+		}
 		ints := []int{0, 1, -7, 1 << 31}
 		strs := []string{"", "ab", "a b", "é", "a&b=c", "<x>", `"q"`, "a+b%20", "x;y"}
 		tagsets := [][]int{nil, {5}, {1, 2}, {0, -3}}
